@@ -528,6 +528,18 @@ func edMutations(c *kc.Ctx, rng *kc.Rng, k *edKey, other *edKey, msg, sig []byte
 			}
 		}
 	}
+	// (e) mixed-order R' = r•B + T made by the signer, s = r + H(R',A,m)·a: satisfies only the COFACTORED equation
+	// [8]s•B = [8]R' + [8]h•A. crypto/ed25519 (cofactorless) rejects it, so kyber must reject it too.
+	for ti, te := range canon[1:] {
+		T := edDecode(te)
+		rs := edGroup.Scalar().SetInt64(int64(1000 + rng.Intn(1000000)))
+		Rp := edGroup.Point().Add(edGroup.Point().Mul(rs, nil), T)
+		Rb := edEnc(Rp)
+		h := edChallenge(Rb, k.pub, msg)
+		rv := kc.LeN(func() []byte { b, _ := rs.MarshalBinary(); return b }())
+		sv := new(big.Int).Mod(new(big.Int).Add(rv, new(big.Int).Mul(h, k.a)), edL)
+		rej(fmt.Sprintf("mixed-order-R-cofactored-only:%d", ti), k.pub, msg, sigCat(Rb, sigLE(sv, 32)))
+	}
 	// (d) small-order R = T with honest key: the equation fails anyway, but the small-order check must fire first
 	for _, te := range allT {
 		rej("small-order-R", k.pub, msg, sigCat(te, sig[32:]))
